@@ -430,13 +430,15 @@ func (c *clientImpl) rangeScanFromShard(ctx context.Context, minKeyInclusive str
 		SecondaryIndexName: secondaryIndexName,
 	}
 
+	// The channel is closed in any case: when the request itself fails, the
+	// caller would otherwise wait forever after receiving the error
+	defer close(ch)
+
 	client, err := c.executor.ExecuteRangeScan(ctx, request)
 	if err != nil {
 		ch <- GetResult{Err: err}
 		return
 	}
-
-	defer close(ch)
 
 	for {
 		response, err := client.Recv()
